@@ -1,7 +1,7 @@
 (* C11 - Test results are reused only when the test's runtime inputs are unchanged.
    This file holds only the statement, the property theorems and their non-vacuity examples. *)
 From Coq Require Import Permutation.
-From PlzV Require Import Base.Harness Gen.C11RuntimeHash Model.C11 Proof.C11 Proof.C11_Cmd.
+From PlzV Require Import Base.Harness Gen.C11RuntimeHash Model.C11 Proof.C11 Proof.C11_Cmd Proof.C11_Perm.
 
 (* For every cache setting, every history h of invocations `plz test [-c config] L [-- args]` on successive
    tree states (with or without deleting plz-out before an invocation) and every position n of it, where x is
@@ -109,6 +109,46 @@ Theorem C11_build_cache :
         builds true (pre_state true pre x) (s_def x) = true -> ~ built_by true pre (t_build (s_def x))).
 Proof. exact (conj fetched_only_what_was_built built_once_with_cache). Qed.
 Print Assumptions C11_build_cache.
+
+(* Which content belongs to which runtime file.  RuntimeHash writes content digests only, so the POSITION of a
+   digest in the combining hash is all that ties a content to its file; gotrans reads off RuntimeHash how the
+   digests are combined (Gen.files_combine: in the order IterRuntimeFiles yields the files, or sorted first).
+   (1) For ALL histories and positions: a cached result comes from an earlier passing, argument-less run in
+   which every position of the (de-duplicated) runtime file list held the content stream it holds now.
+   (2) Permutation edits: if the runtime files of t' are those of t with their nodes PERMUTED (swap the
+   contents of two data files, rotate three, swap the outputs of two data dependencies) and some position gets
+   another content, the runtime key changes.  (3) For ALL histories of any length: a step whose test directory
+   is such a permutation of the test directory of every earlier step is never reported as cached.  (4) The
+   classifier never reports the class ContentsPermuted (equal key, same command and destinations, another
+   content at some position).  All four fail when the digests are sorted before they are combined. *)
+Theorem C11_content_permutation :
+  (forall (cache_on : bool) (h : list step) (n : nat) (x : step),
+     nth_error h n = Some x ->
+     nth_error (reports cache_on h) n = Some CachedPass ->
+     exists i y, i < n /\ nth_error h i = Some y /\ nth_error (reports cache_on h) i = Some RanPass
+                 /\ s_args y = [] /\ assignment (s_def y) = assignment (s_def x))
+  /\ (forall (t t' : tdef) (ns : list node),
+        Permutation ns (map rf_node (runtime_files (t_files t))) ->
+        runtime_files (t_files t') = with_nodes (runtime_files (t_files t)) ns ->
+        map path_stream ns <> assignment t ->
+        runtime_key t' <> runtime_key t)
+  /\ (forall (cache_on : bool) (pre : list step) (x : step),
+        (forall y, In y pre -> permutation_of (s_def y) (s_def x)) ->
+        report_at cache_on pre x <> CachedPass)
+  /\ (forall h : list step, defect_class h <> Some ContentsPermuted).
+Proof.
+  exact (conj cached_assignment_by_position
+        (conj permuted_contents_change_key (conj permutation_edit_never_reuses no_contents_permuted))).
+Qed.
+Print Assumptions C11_content_permutation.
+
+(* Non-vacuity of C11_content_permutation: data = [a.txt; b.txt], the test passes iff p/a.txt holds "ok"; the
+   contents of the two files are swapped - the second step is a permutation of the first in the sense of (2)/(3),
+   it runs and fails, and the classifier finds nothing. *)
+Example C11_swap_reruns :
+  (forall c, reports c w_swap = [RanPass; RanFail] /\ defect_class w_swap = None)
+  /\ permutation_of (s_def (nth 0 w_swap (plain (mk TTrue [])))) (s_def (nth 1 w_swap (plain (mk TTrue [])))).
+Proof. exact (conj w_swap_reruns w_swap_is_permutation). Qed.
 
 (* Regression example for the repaired defect run-with-arguments-reuses-argumentless-result: `plz test L`
    then `plz test L -- bad` - the second invocation runs and fails, and the classifier finds nothing. *)
